@@ -21,6 +21,7 @@ StateOf(g) ==
             totLocked |-> 0, totLockedDen |-> g.ent.denom, totSpent |-> 0],
    wrk |-> RegInit(g.wrk), bcn |-> RegInit(g.bcn),
    str |-> [p |-> [feeNum |-> g.str.feeNum, feeDen |-> g.str.feeDen], s |-> <<>>],
+   grants |-> <<>>,
    aux |-> [props |-> <<>>, nextProp |-> 1, ever |-> [wrk |-> <<>>, bcn |-> <<>>], sh |-> <<>>, ghost |-> {}]]
 
 
@@ -31,5 +32,11 @@ TxFee(msgs, fee) == [a |-> "DeliverTx", msgs |-> msgs, fee |-> fee]
 \* a governance parameter update as one transaction: proposal with deposit + yes vote of the validator's delegator
 GovTxFor(st, mod, p) == Tx(<< [t |-> "GovProp", proposer |-> "V",
                               msgs |-> << [t |-> "UpdParams", mod |-> mod, authority |-> "gov", p |-> p] >>],
+                             [t |-> "Vote", voter |-> "V", id |-> st.aux.nextProp] >>)
+\* the same proposal followed by a message that passes submission but fails when the proposal executes (a transfer
+\* the governance account cannot afford): the whole proposal is rolled back, the parameters must not change
+GovTxFailingFor(st, mod, p) == Tx(<< [t |-> "GovProp", proposer |-> "V",
+                              msgs |-> << [t |-> "UpdParams", mod |-> mod, authority |-> "gov", p |-> p],
+                                          [t |-> "Send", from |-> "gov", to |-> "A1", amt |-> 5, denom |-> "nund"] >>],
                              [t |-> "Vote", voter |-> "V", id |-> st.aux.nextProp] >>)
 =============================================================================
